@@ -15,7 +15,7 @@ From Coq Require Import QArith ZArith List Bool Arith.
 Import ListNotations.
 Require Import SC3.model.TaskQ SC3.model.RtClock.
 Require Import SC3.proofs.C09_order SC3.proofs.C08_sys SC3.proofs.C08_facts SC3.proofs.C08_mon
-  SC3.proofs.C08_app.
+  SC3.proofs.C08_app SC3.proofs.C08_progress.
 Local Open Scope Q_scope.
 
 (* ========================= SystemClock / TempoClock ========================================= *)
@@ -125,6 +125,48 @@ Theorem main_time_frozen_only_inside_awake :
   (forall s, main_time_frozen s = true -> exists nb t k, c_pc s = PAwake nb t k).
 Proof. split; [exact frozen_reset_on_every_exit | exact frozen_only_in_awake]. Qed.
 
+(* ------------------------- progress ("every task ... is awakened") ------------------------------
+   Liveness proper needs the OS: a notified or timed-out wait returns, the time read advances,
+   tasks return.  Those are the oracle; under them the protocol itself makes progress: *)
+
+(* (1) the clock thread is never stuck: in every reachable state in which no client is in the
+   middle of an operation and the thread has not returned, the event [next_clock_event] (the
+   thread is deterministic up to the oracle values t, c, r) is enabled, whatever the oracle says *)
+Theorem clock_thread_never_stuck : forall k m evs s t c r,
+  run (init k m) evs = Some s -> c_pend s = NoPend -> c_pc s <> PExited -> c_last s <= t ->
+  exists e s', next_clock_event s t c r = Some e /\ step s e = Some s'.
+Proof. exact clock_never_stuck. Qed.
+
+(* (2) it goes to sleep only when nothing is due: a wait without timeout starts on an empty queue;
+   a timed wait starts when the earliest pending task (the (time, seq) minimum) was not yet due
+   at a time reading t0 of this very loop iteration *)
+Theorem sleeps_only_when_nothing_is_due : forall k m evs s to s',
+  run (init k m) evs = Some s -> step s (EWaitBegin to) = Some s' ->
+  match to with
+  | None => c_q s = []
+  | Some _ => exists h r t0, c_q s = h :: r /\ t0 <= c_last s /\
+                secs2beats (c_map s) t0 < itime h /\
+                forall x, In x r -> ~ klt (ikey x) (ikey h)
+  end.
+Proof. exact sleep_only_when_nothing_due. Qed.
+
+(* (3) bounded progress under the fair oracle: the thread sleeps, the clock runs; the wait returns
+   (any cause), the time read t has reached every pending time, every task returns a non-number and
+   no client interferes: then the run [drain_events] is the continuation -- 2 + 2 * |queue| + 1 events --
+   it pops and awakens EVERY pending task exactly once, in queue ((time, seq)) order, and ends waiting
+   on an empty queue.  Together with no_oversleep (the deadline slept on is the head's time, or a
+   notify is on its way) this is "every finite-delay task is eventually awakened". *)
+Theorem fair_run_awakens_every_pending_task : forall s c t,
+  waiting (c_pc s) = true -> c_pend s = NoPend -> c_run s = true -> c_q s <> [] ->
+  c_last s <= t -> Forall (fun x => itime x <= secs2beats (c_map s) t) (c_q s) ->
+  (exists s', run s (drain_events c t (c_q s)) = Some s' /\
+     c_q s' = [] /\ c_pc s' = PWaitEmpty /\ c_pend s' = NoPend /\ c_run s' = true /\ c_map s' = c_map s) /\
+  filter (fun e => match e with EPop _ _ => true | _ => false end) (drain_events c t (c_q s))
+    = map (fun x => EPop (itime x) (itask x)) (c_q s).
+Proof.
+  intros s c t H1 H2 H3 H4 H5 H6. split; [apply fair_run_drains; assumption | apply drain_pops_each_once].
+Qed.
+
 (* ========================= AppClock =========================================================== *)
 
 (* F13: the faithful model oversleeps.  Tick on an empty queue; a complete sched() lands between
@@ -166,6 +208,35 @@ Proof. split; [exact app_resched_1 |]. split; [exact app_resched_2 | exact app_r
 Theorem appclock_exception_isolated : forall s k,
   astep s (AAwakeEnd k RRaise) = astep s (AAwakeEnd k ROther).
 Proof. exact app_raise_is_other. Qed.
+
+(* AppClock order: a tick pops (time, seq)-minima that are due, collects them in pop order, wakes the
+   first collected first and, after each wake-up, the next collected one (the queue is sorted in every
+   reachable state of both variants) *)
+Theorem appclock_tick_pops_and_wakes_in_order :
+  (forall v evs s t k s', arun (ainit v) evs = Some s -> astep s (APop t k) = Some s' ->
+     exists now acc h, a_q s = h :: a_q s' /\ itask h = k /\ t == itime h /\ itime h <= now /\
+       a_pc s' = ACollect now (acc ++ [h]) /\ forall x, In x (a_q s') -> ~ klt (ikey x) (ikey h)) /\
+  (forall s k r s', astep s (AAwakeEnd k r) = Some s' ->
+     exists now x todo, a_norm (a_q s) (a_pc s) = AAwk now x todo /\ itask x = k /\
+       match r with
+       | RDelta d => a_pc s' = AReaddT now d k todo
+       | _ => a_pc s' = match todo with [] => ATickDone now | y :: rest => AAwk now y rest end
+       end).
+Proof. split; [exact app_pop_minimum | exact app_wake_order]. Qed.
+
+(* AppClock clear pops the head each time; stop sets the flag for good; a stopped clock never starts a
+   wait again and leaves at its next pass through the second block *)
+Theorem appclock_clear_stop :
+  (forall s t k s', astep s (AClearPop t k) = Some s' ->
+     exists h, a_q s = h :: a_q s' /\ itask h = k /\ t == itime h) /\
+  (forall s s', astep s AStop = Some s' -> a_run s' = false) /\
+  (forall s e s', a_run s = false -> astep s e = Some s' -> a_run s' = false) /\
+  (forall s to, a_run s = false -> astep s (AWaitBegin to) = None) /\
+  (forall s s', a_run s = false -> astep s ACondExit = Some s' -> a_pc s' = AExited \/ a_pc s' = APre).
+Proof.
+  split; [exact app_clear_pops_head |]. split; [exact app_stop_sets_flag |].
+  split; [exact app_run_stays_false |]. split; [exact app_stopped_no_wait | exact app_stopped_exits].
+Qed.
 
 (* ========================= non-vacuity ========================================================= *)
 (* SystemClock: A at 1/2, B at 1/4 scheduled while the thread sleeps until 1/2 (notify: the head
@@ -239,6 +310,18 @@ Example ex_after_raise_base :
   mon_sched_base tm_id (ex_after_raise (3 # 8)) = false.
 Proof. repeat split; vm_compute; reflexivity. Qed.
 
+(* progress: the state after the first 9 events of ex_trace (sleeping until 1/2, queue B C A, B and C at 1/4,
+   A at 1/2) satisfies the hypotheses of the fair-run theorem for t = 1/2; the drain run has 9 events *)
+Example ex_fair_run :
+  exists s s', run (init KSys tm_id) (firstn 9 ex_trace) = Some s /\
+    waiting (c_pc s) = true /\ c_pend s = NoPend /\ c_run s = true /\ length (c_q s) = 3%nat /\
+    run s (drain_events CTimeout (1 # 2) (c_q s)) = Some s' /\ c_q s' = [] /\
+    drain_events CTimeout (1 # 2) (c_q s) =
+      [EWaitEnd CTimeout; ETime (1 # 2); EPop (1 # 4) 2%Z; EAwakeEnd 2%Z ROther; EPop (1 # 4) 3%Z; EAwakeEnd 3%Z ROther;
+       EPop (1 # 2) 1%Z; EAwakeEnd 1%Z ROther; EWaitBegin None] /\
+    next_clock_event s (1 # 2) CTimeout ROther = Some (EWaitEnd CTimeout).
+Proof. eexists. eexists. vm_compute. repeat split; reflexivity. Qed.
+
 (* the hypotheses of ready_popped_in_time_then_fifo_order and of the resched step are met *)
 Example ex_pop_step :
   exists s s', run (init KSys tm_id) (firstn 11 ex_trace) = Some s /\
@@ -271,3 +354,8 @@ Print Assumptions appclock_no_oversleep_refuted.
 Print Assumptions appclock_fixed_no_oversleep.
 Print Assumptions sched_from_non_clock_thread_relative_to_physical_now.
 Print Assumptions main_time_frozen_only_inside_awake.
+Print Assumptions clock_thread_never_stuck.
+Print Assumptions sleeps_only_when_nothing_is_due.
+Print Assumptions fair_run_awakens_every_pending_task.
+Print Assumptions appclock_tick_pops_and_wakes_in_order.
+Print Assumptions appclock_clear_stop.
